@@ -144,7 +144,11 @@ def check_twins(case):
     p = len(pattern)
     M_int = np.where(pattern, lo, 0).astype(dt)
     twins = [("int", M_int)]
-    if case["dtype"] == "int64":
+    if case.get("shape_twin"):
+        # the p x p int32 matrix of ones and the 2p x 2p bool / uint8 matrix with the very same bytes: different graphs
+        M_int = np.where(pattern, 1, 0).astype(np.int32)
+        twins = [("int", M_int), ("bytes_as_%s" % case["shape_twin"], M_int.view(np.dtype(case["shape_twin"])).reshape(2 * p, 2 * p).copy())]
+    elif case["dtype"] == "int64":
         twins.append(("float", M_int.view(np.float64).copy()))
     elif case["dtype"] == "int32":
         twins.append(("float", M_int.view(np.float32).copy()))
@@ -161,6 +165,7 @@ def check_twins(case):
             if bool(got) != (not cyclic):
                 raise Violation("is_dag_wrong", "is_dag returned %r for the %s which is %s" % (got, what, "cyclic" if cyclic else "acyclic"))
             o = lib(utils.topological_ordering, M)
+            p = len(M)
             g = lib(sempler.LGANM, M.astype(float) if name == "int" and case["dtype"] != "int64" else M, np.zeros(p), np.ones(p))
             if cyclic:
                 must_raise(o, ValueError, "topological_ordering(%s)" % what)
@@ -374,6 +379,15 @@ def run(job):
                     except Violation as v:
                         acc.record(case, [], False)
                         acc.violation(case, v)
+                if p <= 2 or n % 4 == 0:
+                    for tw in ("bool", "uint8", "int8"):
+                        case = {"sub": "byte_twins", "pattern": pattern, "dtype": "int32", "shape_twin": tw, "int_first": bool((n + len(tw)) % 2)}
+                        try:
+                            lab = check(case)
+                            acc.record(case, lab + ["shape_twins"], True, by_construction=True)
+                        except Violation as v:
+                            acc.record(case, [], False)
+                            acc.violation(case, v)
         acc.exhaustive = False
     elif job["sub"] == "long_path":
         p = job["p"]
